@@ -13,6 +13,19 @@ package main
 //     TrustStores field of a statement, and that statement up to the selection call of the policy document (through selection
 //     helpers and parameters), see c03StoresSources / c03StmtOrigins;
 //   - a function that only forwards the loader's certificates and error is another loader layer (c03Forwards).
+//
+// Third pass: the load-error clause ("a listed store that cannot be loaded makes authenticity fail") decided wherever the nil
+// test of the loader's error sits on the call chain, by class of rewrite:
+//
+//   - result created up front and filled in: a constructor of successful results (no error parameter, c03CtorOf0) or a literal
+//     without Error, the error stored into the object afterwards; the object's validation type is decided on the object
+//     (c03TypedAs), whoever built it;
+//   - parameter widened: the loader's error is handed on, as it is, next to the certificates, and the callee decides
+//     (c03HandedLoadErr = c03FailsOnParam on the callee's refined exits + c03NoBypass in the caller); the effect-site gate in front
+//     of signature.VerifyAuthenticity is then found inside the callee, on the parameter (c03GatedByLoad); the callee may return a
+//     result or an error, and may be a function literal that is only ever called (c03AnonOnlyCalled closes its call-site list);
+//   - parameter narrowed: the envelope content is handed on, or held in a local, instead of the whole outcome
+//     (c03EnvelopeContent).
 
 import (
 	"fmt"
@@ -80,13 +93,16 @@ func c03CallSites(w *World, g *ssa.Function) (sites []ssa.CallInstruction, close
 	if g == nil || g.Blocks == nil || !w.IsProductFn(g) {
 		return nil, false
 	}
-	closed = !token.IsExported(g.Name()) && g.Parent() == nil
+	closed = !token.IsExported(g.Name()) && (g.Parent() == nil || c03AnonOnlyCalled(g))
 	for _, fn := range w.Funcs {
 		for _, b := range fn.Blocks {
 			for _, in := range b.Instrs {
 				if mc, ok := in.(*ssa.MakeClosure); ok {
-					if f, ok := mc.Fn.(*ssa.Function); ok && (f == g || (f.Synthetic != "" && g.Object() != nil && f.Object() == g.Object())) {
+					if f, ok := mc.Fn.(*ssa.Function); ok && ((f == g && g.Parent() == nil) || (f.Synthetic != "" && g.Object() != nil && f.Object() == g.Object())) {
 						closed = false
+					}
+					if mc.Fn == ssa.Value(g) && g.Parent() != nil {
+						continue // what happens to the closure value is decided by c03AnonOnlyCalled
 					}
 				}
 				ci, isCall := in.(ssa.CallInstruction)
@@ -122,6 +138,43 @@ func c03CallSites(w *World, g *ssa.Function) (sites []ssa.CallInstruction, close
 	return sites, closed
 }
 
+// c03AnonOnlyCalled: the function literal g is only ever called: every closure value made of it (a literal can only be
+// instantiated in its parent) is used as the callee of a call and nothing else (not stored, not passed on, not returned). Its
+// static call sites are then all the ways it can be entered, exactly as for an unexported top-level function — the class
+// "closure vs function". (A literal that captures nothing is the function value itself; uses of it other than calling are caught
+// by the operand scan of c03CallSites.)
+func c03AnonOnlyCalled(g *ssa.Function) bool {
+	par := g.Parent()
+	if par == nil {
+		return false
+	}
+	for _, b := range par.Blocks {
+		for _, in := range b.Instrs {
+			mc, ok := in.(*ssa.MakeClosure)
+			if !ok || mc.Fn != ssa.Value(g) || mc.Referrers() == nil {
+				continue
+			}
+			for _, r := range *mc.Referrers() {
+				switch y := r.(type) {
+				case *ssa.DebugRef:
+				case ssa.CallInstruction:
+					if y.Common().Value != ssa.Value(mc) {
+						return false
+					}
+					for _, a := range y.Common().Args {
+						if a == ssa.Value(mc) {
+							return false
+						}
+					}
+				default:
+					return false
+				}
+			}
+		}
+	}
+	return true
+}
+
 // ---------- result objects ---------------------------------------------------------------------------------------------
 
 // c03Ctor summarises a result constructor: on every exit it returns one fresh result object whose error field holds exactly the
@@ -132,6 +185,17 @@ type c03Ctor struct {
 }
 
 func c03CtorOf(w *World, H *ssa.Function, depth int) *c03Ctor {
+	if k := c03CtorOf0(w, H, depth); k != nil && k.errParam >= 0 {
+		return k
+	}
+	return nil
+}
+
+// c03CtorOf0 also accepts a constructor of *successful* results (third pass: the result object is created up front and its error
+// field is filled in later by the caller): the fresh object's error field is never stored by the constructor, so it is nil when
+// the caller receives it; errParam is then -1. Whatever the caller stores into that field afterwards is the caller's business
+// (the engine tracks such stores as the object's error cell; c03LoadErrorRecorded looks at the store itself).
+func c03CtorOf0(w *World, H *ssa.Function, depth int) *c03Ctor {
 	if H == nil || H.Blocks == nil || !w.IsProductFn(H) || depth > 2 {
 		return nil
 	}
@@ -164,7 +228,7 @@ func c03CtorOf(w *World, H *ssa.Function, depth int) *c03Ctor {
 		if x.Referrers() == nil {
 			return nil
 		}
-		nErr := 0
+		nErr, nNil := 0, 0
 		for _, r := range *x.Referrers() {
 			switch y := r.(type) {
 			case *ssa.Return, *ssa.DebugRef:
@@ -188,6 +252,10 @@ func c03CtorOf(w *World, H *ssa.Function, depth int) *c03Ctor {
 							}
 							continue
 						}
+						if isNilConst(z.Val) {
+							nNil++ // `Error: nil` spelled out: the field stays nil, provided nothing else is stored
+							continue
+						}
 						nErr++
 						p, ok := z.Val.(*ssa.Parameter)
 						if !ok {
@@ -207,14 +275,14 @@ func c03CtorOf(w *World, H *ssa.Function, depth int) *c03Ctor {
 				return nil // the object escapes before it is returned
 			}
 		}
-		if nErr != 1 || out.errParam < 0 {
+		if nErr > 1 || (nErr == 1 && (out.errParam < 0 || nNil > 0)) {
 			return nil
 		}
 		return out
 	case *ssa.Call:
 		// a constructor that delegates to another one (newAuthenticityResult(o, err) = newValidationResult(o, TypeAuthenticity, err))
 		H2 := staticCallee(x)
-		k2 := c03CtorOf(w, H2, depth+1)
+		k2 := c03CtorOf0(w, H2, depth+1)
 		if k2 == nil || len(x.Call.Args) != len(H2.Params) {
 			return nil
 		}
@@ -227,11 +295,15 @@ func c03CtorOf(w *World, H *ssa.Function, depth int) *c03Ctor {
 				}
 			}
 		}
-		p, ok := x.Call.Args[k2.errParam].(*ssa.Parameter)
-		if !ok {
-			return nil
+		if k2.errParam >= 0 && !isNilConst(x.Call.Args[k2.errParam]) {
+			p, ok := x.Call.Args[k2.errParam].(*ssa.Parameter)
+			if !ok {
+				return nil
+			}
+			if out.errParam = c03ParamIndex(p); out.errParam < 0 {
+				return nil
+			}
 		}
-		out.errParam = c03ParamIndex(p)
 		for name, fv := range k2.fields {
 			if q, isP := fv.(*ssa.Parameter); isP {
 				if i := c03ParamIndex(q); i >= 0 && i < len(x.Call.Args) {
@@ -240,9 +312,6 @@ func c03CtorOf(w *World, H *ssa.Function, depth int) *c03Ctor {
 			} else {
 				out.fields[name] = fv
 			}
-		}
-		if out.errParam < 0 {
-			return nil
 		}
 		return out
 	}
@@ -435,9 +504,58 @@ func c03ResultWays(w *World, fi *FnInfo, v ssa.Value, from ssa.Value, ret *ssa.R
 	}
 	e, eb, ok := c03ResultErr(w, v, from, ret)
 	if !ok {
-		return nil, false
+		return c03CalleeWays(w, v, from, base)
 	}
 	return c03NilWays(fi, e, eb, base, 0), true
+}
+
+var c03RefineBusy = map[*ssa.Function]bool{}
+
+// c03CalleeWays: the result object v is what a module function H (not a constructor) returned, and this function does nothing
+// to its error field. The ways in which that field may be nil are then the refined success-capable exits of H, with H's
+// parameters replaced by the arguments of the call — the refinement composed through a forwarding layer (the engine composes
+// H's unrefined summary only: it does not see that a single-exit H with an error local fails on one edge of the phi).
+func c03CalleeWays(w *World, v ssa.Value, from ssa.Value, base map[string]string) ([]map[string]string, bool) {
+	call, ok := v.(*ssa.Call)
+	if !ok {
+		return nil, false
+	}
+	H := staticCallee(call)
+	if H == nil || H.Blocks == nil || !w.IsProductFn(H) || len(call.Call.Args) != len(H.Params) || c03RefineBusy[H] {
+		return nil, false
+	}
+	if res := H.Signature.Results(); res.Len() != 1 || !c03IsResultPtr(res.At(0).Type()) {
+		return nil, false
+	}
+	if st, clean := c03ErrStores(call, from); !clean || len(st) != 0 {
+		return nil, false
+	}
+	mode := Mode{Kind: mObj, K: 0}
+	s := w.Summarize(H, mode)
+	if s == nil || !s.Complete {
+		return nil, false
+	}
+	c03RefineBusy[H] = true
+	exits := c03RefineExits(w, H, mode, s.Exits)
+	delete(c03RefineBusy, H)
+	names := make([]string, len(H.Params))
+	descs := make([]string, len(H.Params))
+	for i, p := range H.Params {
+		names[i] = p.Name()
+		descs[i] = desc(call.Call.Args[i])
+	}
+	out := []map[string]string{}
+	for _, ex := range exits {
+		l := c03CopyLabels(base)
+		for k, site := range ex.Checked {
+			k = substParams(k, names, descs)
+			if _, have := l[k]; !have {
+				l[k] = site
+			}
+		}
+		out = append(out, l)
+	}
+	return out, true
 }
 
 // c03RefineExits re-decides the success-capable exits of a function that returns a result object (mode obj#K) on the value its
@@ -1073,14 +1191,179 @@ func c03Scoping(c *Ctx, load *ssa.Call, storesIdx int, tag string) {
 
 // ---------- authenticity ----------------------------------------------------------------------------------------------------
 
-// c03CarriesLoadErr: val (used by the instruction at) is the loader's error on a path where that error is non-nil.
-func c03CarriesLoadErr(fi *FnInfo, val ssa.Value, at ssa.Instruction, load *ssa.Call, loadErr string) bool {
-	isErrOfLoad := func(v ssa.Value) bool {
-		if e, ok := v.(*ssa.Extract); ok && e.Tuple == ssa.Value(load) && isErrorType(e.Type()) {
+// c03IsLoadErr: v is the error result of the loader call itself (the SSA value, not a copy that went through memory).
+func c03IsLoadErr(v ssa.Value, load *ssa.Call, loadErr string) bool {
+	if e, ok := v.(*ssa.Extract); ok && e.Tuple == ssa.Value(load) && isErrorType(e.Type()) {
+		return true
+	}
+	return desc(v) == loadErr
+}
+
+// c03VerdictMode: the mode under which the engine reads the verdict of a function that returns a validation result or an error.
+func c03VerdictMode(H *ssa.Function) (Mode, bool) {
+	res := H.Signature.Results()
+	if res.Len() == 1 && c03IsResultPtr(res.At(0).Type()) {
+		return Mode{Kind: mObj, K: 0}, true
+	}
+	if res.Len() >= 1 && isErrorType(res.At(res.Len()-1).Type()) {
+		return Mode{Kind: mErr}, true
+	}
+	return Mode{}, false
+}
+
+// c03FailsOnParam: the module function H reports a failure whenever its error parameter i is non-nil: every success-capable exit
+// of H (an exit whose error / whose result's error field may be nil, refined on the value that ends up in the field) is reachable
+// only through the passing edge of `param i == nil`. A result constructor is the trivial case (error field = parameter); a
+// function that is handed the loader's error next to the certificates and decides itself is the general one.
+func c03FailsOnParam(w *World, H *ssa.Function, i int) bool {
+	if H == nil || H.Blocks == nil || !w.IsProductFn(H) || i < 0 || i >= len(H.Params) || !isErrorType(H.Params[i].Type()) {
+		return false
+	}
+	mode, ok := c03VerdictMode(H)
+	if !ok {
+		return false
+	}
+	s := w.Summarize(H, mode)
+	if s == nil || !s.Complete {
+		return false
+	}
+	want := "EQ(" + desc(H.Params[i]) + ",nil)"
+	for _, ex := range c03RefineExits(w, H, mode, s.Exits) {
+		if !labelHas(ex.Checked, want) {
+			return false
+		}
+	}
+	return true
+}
+
+// c03TypedAs: the result object v has the validation type ta: a literal / fresh object whose Type field is only ever stored with
+// that constant, the value of a result constructor given that constant, the result of a module function all of whose exits return
+// such an object, or a phi of such values.
+func c03TypedAs(w *World, v ssa.Value, ta string, depth int) bool {
+	if depth > 4 {
+		return false
+	}
+	switch x := v.(type) {
+	case *ssa.Alloc:
+		if !c03IsResultPtr(x.Type()) || x.Referrers() == nil {
+			return false
+		}
+		n := 0
+		for _, r := range *x.Referrers() {
+			fa, ok := r.(*ssa.FieldAddr)
+			if !ok || fieldName(x.Type(), fa.Field) != "Type" || fa.Referrers() == nil {
+				continue
+			}
+			for _, rr := range *fa.Referrers() {
+				switch z := rr.(type) {
+				case *ssa.UnOp, *ssa.DebugRef:
+				case *ssa.Store:
+					if z.Addr != ssa.Value(fa) || !c03IsConstString(z.Val, ta) {
+						return false
+					}
+					n++
+				default:
+					return false
+				}
+			}
+		}
+		return n > 0
+	case *ssa.Phi:
+		for _, e := range x.Edges {
+			if e != v && !c03TypedAs(w, e, ta, depth+1) {
+				return false
+			}
+		}
+		return len(x.Edges) > 0
+	case *ssa.Call:
+		H := staticCallee(x)
+		if H == nil || H.Blocks == nil || !w.IsProductFn(H) {
+			return false
+		}
+		if k := c03CtorOf0(w, H, 0); k != nil && len(x.Call.Args) == len(H.Params) {
+			return c03IsConstString(c03CtorField(k, x, "Type"), ta)
+		}
+		return c03ReturnsTyped(w, H, ta, depth+1)
+	}
+	return false
+}
+
+func c03ReturnsTyped(w *World, H *ssa.Function, ta string, depth int) bool {
+	res := H.Signature.Results()
+	if res.Len() != 1 || !c03IsResultPtr(res.At(0).Type()) {
+		return false
+	}
+	n := 0
+	for _, b := range H.Blocks {
+		if r, ok := blockTerm(b).(*ssa.Return); ok {
+			if len(r.Results) != 1 || !c03TypedAs(w, r.Results[0], ta, depth) {
+				return false
+			}
+			n++
+		}
+	}
+	return n > 0
+}
+
+// c03NoBypass: every path from the load to an exit of its function on which the loader's error may be non-nil (the passing edge
+// of a nil test of that error is never taken) goes through the block of x.
+func c03NoBypass(load *ssa.Call, x ssa.Instruction, loadErr string) bool {
+	if x.Parent() != load.Parent() {
+		return false
+	}
+	if x.Block() == load.Block() {
+		return true // x uses a result of the load: it comes after it
+	}
+	pass := "EQ(" + loadErr + ",nil)"
+	seen := map[*ssa.BasicBlock]bool{load.Block(): true}
+	stack := []*ssa.BasicBlock{load.Block()}
+	for len(stack) > 0 {
+		b := stack[len(stack)-1]
+		stack = stack[:len(stack)-1]
+		t := blockTerm(b)
+		if _, isRet := t.(*ssa.Return); isRet {
+			return false
+		}
+		iff, isIf := t.(*ssa.If)
+		for j, sc := range b.Succs {
+			if isIf && len(b.Succs) == 2 && b.Succs[0] != b.Succs[1] {
+				l := condLabel(iff.Cond, j == 0)
+				if tw, ok := labelTwin(l); l == pass || (ok && tw == pass) {
+					continue
+				}
+			}
+			if sc == x.Block() || seen[sc] {
+				continue
+			}
+			seen[sc] = true
+			stack = append(stack, sc)
+		}
+	}
+	return true
+}
+
+// c03HandedLoadErr: the call hands the loader's error, as it is, to a module function that fails whenever that parameter is
+// non-nil (c03FailsOnParam), and when the load failed the call cannot be bypassed (c03NoBypass). The value of the call (an
+// error, or a validation result) is then a failure whenever the load failed: the class "parameter widened" — the function that
+// used to get the certificates only now gets the load error too and decides itself.
+func c03HandedLoadErr(w *World, call *ssa.Call, load *ssa.Call, loadErr string) bool {
+	H := staticCallee(call)
+	if H == nil || H.Blocks == nil || !w.IsProductFn(H) || len(call.Call.Args) != len(H.Params) || call.Parent() != load.Parent() {
+		return false
+	}
+	for i, a := range call.Call.Args {
+		if c03IsLoadErr(a, load, loadErr) && c03FailsOnParam(w, H, i) && c03NoBypass(load, call, loadErr) {
 			return true
 		}
-		return desc(v) == loadErr
 	}
+	return false
+}
+
+// c03CarriesLoadErr: val (used by the instruction at) is non-nil whenever the load failed: it is the loader's error on a path
+// where that error is non-nil, an error local filled in with it on the failing branch, or the verdict of a module function that
+// was handed the loader's error and fails on it.
+func c03CarriesLoadErr(fi *FnInfo, val ssa.Value, at ssa.Instruction, load *ssa.Call, loadErr string) bool {
+	isErrOfLoad := func(v ssa.Value) bool { return c03IsLoadErr(v, load, loadErr) }
 	if isErrOfLoad(val) && labelHas(fi.GuardsOf(at), "NE("+loadErr+",nil)") {
 		return true
 	}
@@ -1096,6 +1379,9 @@ func c03CarriesLoadErr(fi *FnInfo, val ssa.Value, at ssa.Instruction, load *ssa.
 			}
 		}
 	}
+	if call := callOf(val); call != nil && isErrorType(val.Type()) {
+		return c03HandedLoadErr(fi.W, call, load, loadErr)
+	}
 	return false
 }
 
@@ -1105,7 +1391,9 @@ func c03IsConstString(v ssa.Value, s string) bool {
 }
 
 // c03LoadErrorRecorded: in F, the loader's error becomes the Error of an authenticity-typed validation result: a composite
-// literal / object whose Error field is stored with it, or the value of a result constructor called with it.
+// literal / object whose Error field is stored with it (the object may have been created up front, by a literal or by a
+// constructor of successful results), the value of a result constructor called with it, or the result of a module function
+// that is handed the loader's error and fails on it (c03HandedLoadErr) and returns authenticity-typed results only.
 func c03LoadErrorRecorded(w *World, F *ssa.Function, load *ssa.Call, loadErr, ta string) bool {
 	fi := w.Info(F)
 	for _, b := range F.Blocks {
@@ -1119,34 +1407,26 @@ func c03LoadErrorRecorded(w *World, F *ssa.Function, load *ssa.Call, loadErr, ta
 				if !c03CarriesLoadErr(fi, x.Val, x, load, loadErr) {
 					continue
 				}
-				// the same object has Type authenticity
-				if fa.X.Referrers() == nil {
-					continue
-				}
-				for _, r := range *fa.X.Referrers() {
-					fa2, ok := r.(*ssa.FieldAddr)
-					if !ok || fieldName(fa.X.Type(), fa2.Field) != "Type" || fa2.Referrers() == nil {
-						continue
-					}
-					for _, rr := range *fa2.Referrers() {
-						if st2, ok := rr.(*ssa.Store); ok && st2.Addr == ssa.Value(fa2) && c03IsConstString(st2.Val, ta) {
-							return true
-						}
-					}
-				}
-				// … or it is the value of a constructor that was given the authenticity type
-				if call, ok := fa.X.(*ssa.Call); ok {
-					if k := c03CtorOf(w, staticCallee(call), 0); k != nil && c03IsConstString(c03CtorField(k, call, "Type"), ta) {
+				// the same object has Type authenticity: its Type field is stored with the constant, or it is the value of a
+				// constructor that was given the authenticity type
+				switch fa.X.(type) {
+				case *ssa.Alloc, *ssa.Call:
+					if c03TypedAs(w, fa.X, ta, 0) {
 						return true
 					}
 				}
 			case *ssa.Call:
 				H := staticCallee(x)
-				k := c03CtorOf(w, H, 0)
-				if k == nil || len(x.Call.Args) != len(H.Params) {
+				if H == nil || len(x.Call.Args) != len(H.Params) {
 					continue
 				}
-				if c03CarriesLoadErr(fi, x.Call.Args[k.errParam], x, load, loadErr) && c03IsConstString(c03CtorField(k, x, "Type"), ta) {
+				if k := c03CtorOf(w, H, 0); k != nil {
+					if c03CarriesLoadErr(fi, x.Call.Args[k.errParam], x, load, loadErr) && c03IsConstString(c03CtorField(k, x, "Type"), ta) {
+						return true
+					}
+					continue
+				}
+				if c03IsResultPtr(x.Type()) && c03HandedLoadErr(w, x, load, loadErr) && c03ReturnsTyped(w, H, ta, 0) {
 					return true
 				}
 			}
@@ -1155,12 +1435,74 @@ func c03LoadErrorRecorded(w *World, F *ssa.Function, load *ssa.Call, loadErr, ta
 	return false
 }
 
+// c03TowardVerify: the calls of R through which control can reach signature.VerifyAuthenticity: the call of it, or a call of a
+// module function in whose call tree it is called.
+func c03TowardVerify(w *World, R *ssa.Function) (out []*ssa.Call, ok bool) {
+	ok = true
+	for _, ci := range allCalls(R) {
+		toward := isCallTo(ci, "core/signature.VerifyAuthenticity")
+		if g := staticCallee(ci); !toward && g != nil && g != R && w.IsProductFn(g) {
+			for _, f := range w.moduleCallees(g) {
+				if len(findCalls(f, "core/signature.VerifyAuthenticity")) > 0 {
+					toward = true
+				}
+			}
+		}
+		if !toward {
+			continue
+		}
+		call, isCall := ci.(*ssa.Call)
+		if !isCall {
+			ok = false // go / defer: not on a path the guards describe
+			continue
+		}
+		out = append(out, call)
+	}
+	return out, ok
+}
+
+// c03GatedByLoad: the call `at` of fn is evaluated only when the loader's error is nil. Either the call itself sits behind the
+// passing edge of `err == nil` in fn (err: the loader's error in fn's frame), or the loader's error is handed on to the callee
+// as an argument and, inside the callee, every call through which signature.VerifyAuthenticity can be reached is so gated on the
+// corresponding parameter (recursively). The effect-site gate is thereby decided at the call of VerifyAuthenticity, wherever the
+// nil test of the loader's error sits on the call chain down to it.
+func c03GatedByLoad(w *World, fn *ssa.Function, at *ssa.Call, isErr func(ssa.Value) bool, errD string, depth int) (bool, map[string]string) {
+	g := w.Info(fn).GuardsOf(at)
+	if labelHas(g, "EQ("+errD+",nil)") {
+		return true, g
+	}
+	R := staticCallee(at)
+	if depth > 3 || R == nil || R == fn || R.Blocks == nil || !w.IsProductFn(R) || len(at.Call.Args) != len(R.Params) {
+		return false, g
+	}
+	inner, ok := c03TowardVerify(w, R)
+	if !ok || len(inner) == 0 {
+		return false, g
+	}
+	for i, a := range at.Call.Args {
+		if !isErr(a) {
+			continue
+		}
+		p := R.Params[i]
+		all := true
+		for _, d := range inner {
+			if ok, _ := c03GatedByLoad(w, R, d, func(v ssa.Value) bool { return v == ssa.Value(p) }, desc(p), depth+1); !ok {
+				all = false
+				break
+			}
+		}
+		if all {
+			return true, g
+		}
+	}
+	return false, g
+}
+
 // c03Authenticity: the certificates returned by the loader call `load` (result certIdx) are exactly what
 // signature.VerifyAuthenticity receives; an empty set, a verification error and a load error are failing results.
 func c03Authenticity(c *Ctx, load *ssa.Call, certIdx int) {
 	w := c.W
 	F := load.Parent()
-	fi := w.Info(F)
 	loadErr := descTailErr(load)
 	rule := "provenance: signature.VerifyAuthenticity receives exactly the certificates the scheme-typed loader returned for the applicable statement's stores"
 	type vaSite struct {
@@ -1205,8 +1547,9 @@ func c03Authenticity(c *Ctx, load *ssa.Call, certIdx int) {
 		}
 		sort.Slice(hops, func(i, j int) bool { return hops[i].Pos() < hops[j].Pos() })
 		for _, vc := range hops {
-			g := fi.GuardsOf(vc)
-			c.Check(labelHas(g, "EQ("+loadErr+",nil)"), "authenticity/only-after-successful-load", "effect-site gate: authenticity is evaluated only after the stores were loaded without error", w.InstrPos(vc), "guards: "+summarizeLabels(g, 6))
+			gated, g := c03GatedByLoad(w, F, vc, func(v ssa.Value) bool { return c03IsLoadErr(v, load, loadErr) }, loadErr, 0)
+			c.Evals++
+			c.Check(gated, "authenticity/only-after-successful-load", "effect-site gate: authenticity is evaluated only after the stores were loaded without error (the nil test of the loader's error guards the call that hands the certificates on, or the error is handed on with them and guards the way to signature.VerifyAuthenticity inside the callee)", w.InstrPos(vc), "guards: "+summarizeLabels(g, 6))
 			// inside the function of F's that is handed the certificates (it calls VerifyAuthenticity itself or through helpers, whose
 			// must-pass facts the engine composes into its exits with the parameters replaced by the arguments): an empty set and a
 			// verification error are failing results
@@ -1404,4 +1747,57 @@ func c03FromLoadResult(v ssa.Value, L *ssa.Call) bool {
 		}
 	}
 	return true
+}
+
+// c03EnvelopeContent: v is the envelope content recorded in the verification outcome (the one the integrity step verified):
+// read from the EnvelopeContent field of an outcome; the very value this function stores into that field (held in a local
+// instead of being re-read); a phi of such values; or a parameter of envelope-content type of a function with a closed call-site
+// list every site of which passes such a value. The narrowed parameter names the same object the wide one (the outcome) gave
+// access to, so VerifyAuthenticity is applied to the same SignerInfo.
+func c03EnvelopeContent(w *World, v ssa.Value, depth int) bool {
+	if depth > 4 || namedOf(v.Type()) != "core/signature.EnvelopeContent" {
+		return false
+	}
+	if ld, ok := v.(*ssa.UnOp); ok && ld.Op == token.MUL {
+		if _, isFA := ld.X.(*ssa.FieldAddr); !isFA {
+			return c03EnvelopeContent(w, ld.X, depth+1) // *p: a copy of the content p points to
+		}
+	}
+	if strings.HasSuffix(desc(v), ".EnvelopeContent") {
+		return true
+	}
+	// stored into the outcome's EnvelopeContent field by this very function
+	if v.Referrers() != nil {
+		for _, r := range *v.Referrers() {
+			st, ok := r.(*ssa.Store)
+			if !ok || st.Val != v {
+				continue
+			}
+			if fa, ok := st.Addr.(*ssa.FieldAddr); ok && namedOf(fa.X.Type()) == "ngo.VerificationOutcome" && fieldName(fa.X.Type(), fa.Field) == "EnvelopeContent" {
+				return true
+			}
+		}
+	}
+	switch x := v.(type) {
+	case *ssa.Phi:
+		for _, e := range x.Edges {
+			if e != v && !c03EnvelopeContent(w, e, depth+1) {
+				return false
+			}
+		}
+		return len(x.Edges) > 0
+	case *ssa.Parameter:
+		sites, closed := c03CallSites(w, x.Parent())
+		idx := c03ParamIndex(x)
+		if !closed || len(sites) == 0 || idx < 0 {
+			return false
+		}
+		for _, s := range sites {
+			if !c03EnvelopeContent(w, s.Common().Args[idx], depth+1) {
+				return false
+			}
+		}
+		return true
+	}
+	return false
 }
